@@ -273,6 +273,18 @@ func monC02(o *TypeOps, c Config, r *Rep) {
 		}
 	}
 	pl.unchanged(r, "deriveEqual")
+	if o.EqualCurried != nil {
+		b2i := func(b bool) int {
+			if b {
+				return 1
+			}
+			return 0
+		}
+		heldCurried(o.T, pl.vals, r, func(w reflect.Value) func(reflect.Value) (int, int) {
+			f := o.EqualCurried(w.Interface())
+			return func(b reflect.Value) (int, int) { return b2i(f(b.Interface())), b2i(o.Equal(w.Interface(), b.Interface())) }
+		})
+	}
 }
 
 // ---------------------------------------------------------------------------------------------
@@ -386,6 +398,60 @@ func monC03(o *TypeOps, c Config, r *Rep) {
 		}
 	}
 	pl.unchanged(r, "deriveCompare")
+	for _, v := range pl.vals {
+		// two views of ONE backing array that start at the same element but differ in length
+		for _, sv := range SharedViews(v, 3) {
+			pairLaws("shared-backing-array", sv[0], sv[1])
+		}
+	}
+	// a curried function that is kept while its (reference-typed) argument changes: at every call it
+	// must agree with the binary form on the argument as it is then
+	if o.CompareCurried != nil {
+		heldCurried(o.T, pl.vals, r, func(w reflect.Value) func(reflect.Value) (int, int) {
+			f := o.CompareCurried(w.Interface())
+			return func(b reflect.Value) (int, int) { return f(b.Interface()), o.Compare(w.Interface(), b.Interface()) }
+		})
+	}
+}
+
+// heldCurried: for pointer, slice and map typed values w (fresh deep copies of pool values) the
+// curried function is made first, then everything reachable from w is overwritten in place, then the
+// held function is compared with the binary form on the pool values.
+func heldCurried(t reflect.Type, vals []reflect.Value, r *Rep, mk func(w reflect.Value) func(b reflect.Value) (int, int)) {
+	switch t.Kind() {
+	case reflect.Pointer, reflect.Slice, reflect.Map:
+	default:
+		return
+	}
+	for i, v := range vals {
+		if i >= 6 {
+			break
+		}
+		w := DeepClone(v)
+		var call func(reflect.Value) (int, int)
+		if pn := try(func() { call = mk(w) }); pn != "" {
+			r.Fail("curried-held", "making the curried function panicked: %s", pn)
+			return
+		}
+		if Scribble(w) == 0 {
+			continue
+		}
+		for j, b := range vals {
+			if j >= 6 {
+				break
+			}
+			var held, now int
+			if pn := try(func() { held, now = call(b) }); pn != "" {
+				r.Fail("curried-held", "panicked after the argument was changed in place: %s", pn)
+				return
+			}
+			if held != now {
+				r.Fail("curried-held", "the curried function was made, then its argument was changed in place: held function=%d, binary form on the changed argument=%d\n argument now=%s\n other=%s", held, now, show(w), show(b))
+			} else {
+				r.Ok("curried-held")
+			}
+		}
+	}
 }
 
 // ---------------------------------------------------------------------------------------------
